@@ -1,12 +1,14 @@
 (* C01 — the returned composition satisfies the law of mass action.
    What is a theorem: the fixed points of the Newton iteration are exactly the mass-action states; the
    Newton-step residual identity; the Saha / Guldberg-Waage form; such a state is the global minimum of the ideal Gibbs
-   function over all compositions with the same element and charge totals (it IS the equilibrium).  NOT a theorem: that the floating-point
-   iteration reaches the fixed point for every (T, P, x0) — the stopping rule inspects only the most abundant
-   species; residuals above the mole-fraction floor are validated on the implementation. *)
+   function over all compositions with the same element and charge totals (it IS the equilibrium).  it is the only such state
+   (uniqueness); the stopping quantity bounds the relative Newton step of every resolved species, and a species whose last
+   step is small sits correspondingly close to mass action (error bound).  NOT a theorem: that the floating-point
+   iteration reaches the fixed point for every (T, P, x0), i.e. that it stops at all un-warned; residuals above the
+   mole-fraction floor are validated on the implementation. *)
 From Coq Require Import Reals List Lra.
 Import ListNotations.
-From MPC Require Import Num Species RInst StatMech RVec GenSpecies RefEnergy Gibbs C02_proofs C01_proofs C09_proofs C10_proofs C10_kkt C01_unique.
+From MPC Require Import Num Species RInst StatMech RVec GenSpecies RefEnergy Gibbs C02_proofs C01_proofs C09_proofs C10_proofs C10_kkt C01_unique C01_stop.
 Open Scope R_scope.
 
 (* the chemical potential as coded (with V = N_tot kT / P inside Z_tot) is a function of the density n = N/V only *)
@@ -110,6 +112,25 @@ Theorem C01_stationary_states_same_fractions :
   forall p, In p ps -> e_n (snd p) / Ntot (map snd ps) = e_n (fst p) / Ntot (map fst ps).
 Proof. exact stationary_points_same_fractions. Qed.
 Print Assumptions C01_stationary_states_same_fractions.
+
+(* what "converged" means for the returned composition: the stopping quantity (model Gibbs.stop_quantity, tied to the code by
+   recorded iterations) bounds the relative Newton step of every species above 1e-7 of the most abundant one ... *)
+Theorem C01_stop_quantity_bounds_resolved_steps : forall (Ni Nn : list R) (rtol n nn : R),
+  stop_quantity RNum Ni Nn <= rtol -> In (n, nn) (combine Ni Nn) ->
+  1 / 10000000 * nth (argmax RNum Nn) Nn 0 < nn -> Rabs (nn - n) / nn <= rtol.
+Proof. exact converged_resolved_steps_small. Qed.
+Theorem C01_stop_quantity_judges_largest : forall (Ni Nn : list R),
+  let j := argmax RNum Nn in Rabs (nth j Nn 0 - nth j Ni 0) / nth j Nn 0 <= stop_quantity RNum Ni Nn.
+Proof. exact stop_quantity_bounds_largest. Qed.
+(* ... and a species whose last relative step is at most eps < 1 is within (eps2 + eps / (1 - eps)) kT of mass action,
+   eps2 bounding the relative change of the total particle number in that step (species row of the Newton system) *)
+Theorem C01_small_step_near_mass_action : forall kt ntot sn n nn al m eps eps2 : R,
+  0 < kt -> 0 < ntot -> 0 < n -> 0 < nn -> 0 <= eps < 1 ->
+  species_residual RNum kt ntot sn n nn al m = 0 ->
+  Rabs (nn - n) / nn <= eps -> Rabs (sn / ntot - 1) <= eps2 ->
+  Rabs ((m + al) / kt) <= eps2 + eps / (1 - eps).
+Proof. exact small_step_near_mass_action. Qed.
+Print Assumptions C01_small_step_near_mass_action.
 
 (* non-vacuity: O2 <-> 2 O with columns (element O; charge): nu = (1, -2) is a reaction *)
 Example C01_reaction_exists : Forall (fun c => dotR c [1; -2] = 0) [[2; 1]; [0; 0]].
